@@ -46,6 +46,7 @@ pub fn run_e1(
         return report::replay_site_case(&sites, site, index);
     }
     let started = std::time::Instant::now();
+    report::start_hang_watchdog(property, tier, level, 90);
     let (acc, per_site) = report::run_sites(&sites);
     let mut extra = serde_json::Map::new();
     let _ = extra.insert("sites".into(), serde_json::Value::Array(per_site));
